@@ -732,6 +732,43 @@ pub fn retry_native(valid: bool, authed_before: u8) -> u32 {
     }
 }
 
+/// Native replay body for the E2 slice query `e2_retry_requeues_early_frames_slice` (C17 / C01): a client that
+/// has sent a RESET_STREAM and a MAX_DATA in a 0-RTT packet receives a valid Retry.  The 0-RTT packet is
+/// forgotten by loss detection (the server never saw it), so the frames it carried must be queued again - and
+/// it must no longer count as in flight.
+pub fn retry_early_frames_native(_x: u8) -> u32 {
+    let mut conn = mk_conn(false, false);
+    nullcrypto::RETRY_VALID.store(true, std::sync::atomic::Ordering::Relaxed);
+    conn.state = State::Handshake(state::Handshake { rem_cid_set: false, expected_token: Bytes::new(), client_hello: Some(Bytes::from_static(b"client hello")) });
+    let t0 = crate::verif::mk_instant(50, 0).unwrap();
+    let now = crate::verif::mk_instant(51, 0).unwrap();
+    let initial = SentPacket { path_generation: 0, time_sent: t0, size: 1200, ack_eliciting: true, largest_acked: None, retransmits: ThinRetransmits::default(), stream_frames: Default::default() };
+    paths::in_flight_insert(&mut conn.path, &initial);
+    conn.spaces[SpaceId::Initial].sent(0, initial);
+    let id = StreamId::new(Side::Client, Dir::Uni, 0);
+    let mut early = ThinRetransmits::default();
+    early.get_or_create().reset_stream.push((id, VarInt::from_u32(7)));
+    early.get_or_create().max_data = true;
+    let zero_rtt = SentPacket { path_generation: 0, time_sent: t0, size: 300, ack_eliciting: true, largest_acked: None, retransmits: early, stream_frames: Default::default() };
+    paths::in_flight_insert(&mut conn.path, &zero_rtt);
+    conn.spaces[SpaceId::Data].sent(0, zero_rtt);
+    assert!(paths::in_flight_bytes(&conn.path) == 1500);
+    let packet = Packet {
+        header: Header::Retry { dst_cid: ConnectionId::new(&[2; 8]), src_cid: ConnectionId::new(&[0x77; 8]), version: 1 },
+        header_data: Bytes::from_static(&[0xf0, 0, 0, 0, 1]),
+        payload: BytesMut::from(&[1u8, 2, 3, 4, 0, 0, 0, 0, 0, 0, 0, 0, 0, 0, 0, 0, 0, 0, 0, 0][..]),
+    };
+    conn.total_authed_packets = 1;
+    let r = conn.process_decrypted_packet(now, addr(1, 4433), None, packet);
+    assert!(r.is_ok() && conn.retry_src_cid.is_some(), "the valid first Retry was not followed");
+    assert!(paths::in_flight_bytes(&conn.path) == 0, "the discarded 0-RTT packet still counts as in flight ({} bytes)", paths::in_flight_bytes(&conn.path));
+    assert!(conn.spaces[SpaceId::Data].sent_packets.get(0).is_none());
+    let pending = &conn.spaces[SpaceId::Data].pending;
+    assert!(pending.reset_stream.iter().any(|&(s, c)| s == id && c == VarInt::from_u32(7)), "the RESET_STREAM sent in the discarded 0-RTT packet is never sent again");
+    assert!(pending.max_data, "the MAX_DATA sent in the discarded 0-RTT packet is never sent again");
+    1
+}
+
 /// Native replay body for the E2 slice query `e2_black_hole_purges_datagrams_slice` (C16 / C13): a
 /// connection at MTU 1452 with a 1300-byte datagram queued declares a large packet lost; that is the
 /// loss burst that reveals a black hole, the estimate falls back to 1200 - and the queued datagram,
@@ -1141,6 +1178,78 @@ pub fn handle_packet_core_native(mode: u8) -> u32 {
             deliver(&mut conn, &hs);
             assert!(conn.stats.frame_rx.ping == 2, "a packet was taken for a duplicate of a packet in a different number space");
             4
+        }
+    }
+}
+
+/// Native replay body for the E2 slice query `e2_handle_packet_unprotected_slice` (C04): Retry and Version
+/// Negotiation packets carry no packet protection, anyone who knows a connection ID can forge them.  They mean
+/// something to a client that is still handshaking and to nobody else.  mode 0: an established server gets a
+/// Version Negotiation packet - nothing is counted as authenticated and the idle timer is not pushed out.
+/// mode 1: a client that is repeating its CONNECTION_CLOSE gets a Version Negotiation packet whose payload
+/// reads as a CONNECTION_CLOSE frame - it keeps closing (does not start draining).  mode 2: a handshaking
+/// server gets a Retry-typed packet - the handshake goes on.  mode 3 / 4 (what must keep working): a
+/// handshaking client that gets a Version Negotiation packet without its version gives up, one that gets a
+/// valid Retry follows it.
+pub fn unprotected_packet_native(mode: u8) -> u32 {
+    let now = crate::verif::mk_instant(51, 0).unwrap();
+    let later = crate::verif::mk_instant(55, 0).unwrap();
+    let remote = addr(1, 4433);
+    let vn = |payload: &[u8]| Packet {
+        header: Header::VersionNegotiate { random: 0x2a, src_cid: ConnectionId::new(&[3; 8]), dst_cid: ConnectionId::new(&[2; 8]) },
+        header_data: Bytes::from_static(&[0xaa, 0, 0, 0, 0]),
+        payload: BytesMut::from(payload),
+    };
+    let retry = || Packet {
+        header: Header::Retry { dst_cid: ConnectionId::new(&[2; 8]), src_cid: ConnectionId::new(&[0x77; 8]), version: 1 },
+        header_data: Bytes::from_static(&[0xf0, 0, 0, 0, 1]),
+        payload: BytesMut::from(&[1u8, 2, 3, 4, 0, 0, 0, 0, 0, 0, 0, 0, 0, 0, 0, 0, 0, 0, 0, 0][..]),
+    };
+    match mode {
+        0 => {
+            let mut conn = mk_migratable_server();
+            conn.idle_timeout = Some(Duration::from_secs(30));
+            conn.reset_idle_timeout(now, SpaceId::Data);
+            let idle = conn.timers.get(Timer::Idle);
+            assert!(idle.is_some());
+            conn.handle_packet(later, remote, None, Some(vn(&[0x0a, 0x1a, 0x2a, 0x3a])), false);
+            assert!(conn.total_authed_packets == 0, "an unprotected packet was counted as authenticated by an established connection");
+            assert!(conn.timers.get(Timer::Idle) == idle, "an unprotected packet pushed out the idle timeout of an established connection");
+            assert!(matches!(conn.state, State::Established));
+            1
+        }
+        1 => {
+            let mut conn = mk_conn(false, false);
+            conn.state = State::Established;
+            conn.spaces[SpaceId::Data].crypto = Some(nullcrypto::tagged_keys(0));
+            conn.highest_space = SpaceId::Data;
+            conn.close(now, VarInt::from_u32(42), Bytes::from_static(b"bye"));
+            assert!(matches!(conn.state, State::Closed(_)));
+            conn.handle_packet(later, remote, None, Some(vn(&[0x1c, 0, 0, 0])), false);
+            assert!(matches!(conn.state, State::Closed(_)), "an unprotected packet made a closing connection stop repeating its close");
+            2
+        }
+        2 => {
+            let mut conn = mk_conn(true, false);
+            assert!(conn.state.is_handshake());
+            conn.handle_packet(later, remote, None, Some(retry()), false);
+            assert!(conn.state.is_handshake() && conn.error.is_none(), "a forged Retry-typed packet ended a server's handshake");
+            4
+        }
+        3 => {
+            let mut conn = mk_conn(false, false);
+            assert!(conn.state.is_handshake());
+            conn.handle_packet(later, remote, None, Some(vn(&[0x0a, 0x1a, 0x2a, 0x3a])), false);
+            assert!(matches!(conn.error, Some(ConnectionError::VersionMismatch)), "a handshaking client ignored a Version Negotiation packet that does not list its version");
+            8
+        }
+        _ => {
+            let mut conn = mk_conn(false, false);
+            nullcrypto::RETRY_VALID.store(true, std::sync::atomic::Ordering::Relaxed);
+            conn.state = State::Handshake(state::Handshake { rem_cid_set: false, expected_token: Bytes::new(), client_hello: Some(Bytes::from_static(b"client hello")) });
+            conn.handle_packet(later, remote, None, Some(retry()), false);
+            assert!(conn.retry_src_cid == Some(ConnectionId::new(&[0x77; 8])), "a handshaking client did not follow a valid first Retry");
+            16
         }
     }
 }
